@@ -676,7 +676,7 @@ mutual
 def StmtOK : Stmt → Prop
   | .nop => True
   | .raise => True
-  | .block p _ body => LeafNodup p ∧ ProgOK body
+  | .block p _ _ body => LeafNodup p ∧ ProgOK body
   | .tryExcept body => ProgOK body
 def ProgOK : List Stmt → Prop
   | [] => True
@@ -689,9 +689,9 @@ structure ExecSpec (σ σ' : State) (st : Status) : Prop where
   restored : st ≠ .entryFailed → HeapEq σ'.heap σ.heap
   store : st ≠ .entryFailed → ∃ new : List TdObj, σ'.tds = σ.tds ++ new ∧ ∀ td ∈ new, td.queue = []
 
-theorem toModule_ok {σ σ1 : State} {p m i} (h : toModule σ p m = .ok (σ1, i)) :
+theorem toModule_ok {σ σ1 : State} {p m i} {temp : Bool} (h : toModule σ p m temp = .ok (σ1, i)) :
     ∃ sw, swap σ.heap m p = .ok (σ1.heap, sw) ∧ i = σ.tds.length ∧
-      σ1.tds = σ.tds ++ [{ tree := sw, lastOp := some (m, p) }] := by
+      σ1.tds = σ.tds ++ [{ tree := sw, lastOp := some (m, if temp then none else some p) }] := by
   unfold toModule at h
   split at h
   · cases h
@@ -709,22 +709,30 @@ theorem set_append_mid (a new : List TdObj) (x y : TdObj) :
 
 
 theorem exit_ok {σ3 : State} {a new : List TdObj} {sw p : List (Name × PTree)} {m : MId} {h0 h1 : Heap}
-    (r : Bool) (htds : σ3.tds = a ++ [{ tree := sw, lastOp := some (m, p), queue := [some (m, p)] }] ++ new)
+    (r : Bool) (src : Option (List (Name × PTree)))
+    (htds : σ3.tds = a ++ [{ tree := sw, lastOp := some (m, src), queue := [some (m, src)] }] ++ new)
     (hwf : HeapWF h0) (hnd : LeafNodup p) (hs : swap h0 m p = .ok (h1, sw)) (hg : HeapEq σ3.heap h1) :
     ∃ σ4 res, exitBlock σ3 a.length r = (σ4, res) ∧ res ≠ .failed ∧ HeapEq σ4.heap h0 ∧
-      σ4.tds = a ++ [{ tree := sw, lastOp := some (m, p), queue := [] }] ++ new := by
+      σ4.tds = a ++ [{ tree := sw, lastOp := some (m, src), queue := [] }] ++ new := by
   obtain ⟨g', p', hsw, heq⟩ := swap_restores hwf hnd hs hg
-  cases hq : quickSet p' p with
-  | ok v =>
-    refine ⟨{ heap := g', tds := a ++ [{ tree := sw, lastOp := some (m, p), queue := [] }] ++ new }, .ok, ?_, by simp, heq, rfl⟩
+  cases src with
+  | none =>
+    refine ⟨{ heap := g', tds := a ++ [{ tree := sw, lastOp := some (m, none), queue := [] }] ++ new }, .ok, ?_, by simp, heq, rfl⟩
     unfold exitBlock
     simp only [State.td, htds, getD_append_mid, State.setTd, set_append_mid]
-    rw [hsw]; simp only [hq]
-  | error e =>
-    refine ⟨{ heap := g', tds := a ++ [{ tree := sw, lastOp := some (m, p), queue := [] }] ++ new }, .raised, ?_, by simp, heq, rfl⟩
-    unfold exitBlock
-    simp only [State.td, htds, getD_append_mid, State.setTd, set_append_mid]
-    rw [hsw]; simp only [hq]
+    rw [hsw]
+  | some sp =>
+    cases hq : quickSet p' sp with
+    | ok v =>
+      refine ⟨{ heap := g', tds := a ++ [{ tree := sw, lastOp := some (m, some sp), queue := [] }] ++ new }, .ok, ?_, by simp, heq, rfl⟩
+      unfold exitBlock
+      simp only [State.td, htds, getD_append_mid, State.setTd, set_append_mid]
+      rw [hsw]; simp only [hq]
+    | error e =>
+      refine ⟨{ heap := g', tds := a ++ [{ tree := sw, lastOp := some (m, some sp), queue := [] }] ++ new }, .raised, ?_, by simp, heq, rfl⟩
+      unfold exitBlock
+      simp only [State.td, htds, getD_append_mid, State.setTd, set_append_mid]
+      rw [hsw]; simp only [hq]
 
 mutual
 theorem execStmt_spec : ∀ (x : Stmt) (σ : State), HeapWF σ.heap → StmtOK x →
@@ -745,11 +753,11 @@ theorem execStmt_spec : ∀ (x : Stmt) (σ : State), HeapWF σ.heap → StmtOK x
     · exact ⟨by simp, fun _ => ih.restored (by simp), fun _ => ih.store (by simp)⟩
     · exact ih
     · exact ih
-  | .block p m body, σ, hwf, hok => by
+  | .block p m temp body, σ, hwf, hok => by
     simp only [StmtOK] at hok
     obtain ⟨hnd, hbody⟩ := hok
     simp only [execStmt]
-    cases htm : toModule σ p m with
+    cases htm : toModule σ p m temp with
     | error σ' => exact ⟨by simp, fun h => absurd rfl h, fun h => absurd rfl h⟩
     | ok r =>
       obtain ⟨σ1, i⟩ := r
@@ -760,9 +768,10 @@ theorem execStmt_spec : ∀ (x : Stmt) (σ : State), HeapWF σ.heap → StmtOK x
         exact swap_wf p _ _ m _ memo1 sw hrun hwf
       -- the state after __enter__
       have henter : (enterBlock σ1 σ.tds.length).tds =
-          σ.tds ++ [{ tree := sw, lastOp := some (m, p), queue := [some (m, p)] }] ++ [] := by
-        have := getD_append_mid σ.tds [] { tree := sw, lastOp := some (m, p) }
-        have h2 := set_append_mid σ.tds [] { tree := sw, lastOp := some (m, p) }
+          σ.tds ++ [{ tree := sw, lastOp := some (m, if temp then none else some p),
+                      queue := [some (m, if temp then none else some p)] }] ++ [] := by
+        have := getD_append_mid σ.tds [] { tree := sw, lastOp := some (m, if temp then none else some p) }
+        have h2 := set_append_mid σ.tds [] { tree := sw, lastOp := some (m, if temp then none else some p) }
         simp only [List.append_nil] at this h2
         simp only [enterBlock, State.td, State.setTd, htds1, this, h2, List.append_nil]
       have hheap : (enterBlock σ1 σ.tds.length).heap = σ1.heap := rfl
@@ -776,8 +785,8 @@ theorem execStmt_spec : ∀ (x : Stmt) (σ : State), HeapWF σ.heap → StmtOK x
         obtain ⟨new, hnew, hq⟩ := ih.store hst
         rw [henter, List.append_nil] at hnew
         have hg : HeapEq σ3.heap σ1.heap := by have := ih.restored hst; rw [hheap] at this; exact this
-        obtain ⟨σ4, res, he, hres, heq, htd4⟩ := exit_ok r hnew hwf hnd hsw hg
-        refine ⟨σ4, res, he, hres, heq, { tree := sw, lastOp := some (m, p), queue := [] } :: new, by rw [htd4]; simp, ?_⟩
+        obtain ⟨σ4, res, he, hres, heq, htd4⟩ := exit_ok r _ hnew hwf hnd hsw hg
+        refine ⟨σ4, res, he, hres, heq, { tree := sw, lastOp := some (m, if temp then none else some p), queue := [] } :: new, by rw [htd4]; simp, ?_⟩
         intro td htd
         simp only [List.mem_cons] at htd
         rcases htd with rfl | htd
